@@ -666,7 +666,8 @@ fn check_replay(rc: &ReplayCase) -> CaseResult {
                     .collect()
             };
 
-            let script = async {
+            let attacker = async {
+                let r: Script = async {
                 if victim_is_bob {
                     // Scripted Alice: salt, then echo whatever Bob claims, then an empty node list.
                     script_send(&mut to_victim, PsiHashMessage::AliceSaltHalf { alice_salt_half: fake_salt }).await?;
@@ -700,9 +701,8 @@ fn check_replay(rc: &ReplayCase) -> CaseResult {
                     }
                 }
                 Ok::<(), String>(())
-            };
-            let attacker = async {
-                let r: Script = script.await;
+                }
+                .await;
                 // Hang up as well: a victim still waiting for the script must not wait forever.
                 to_victim.close_channel();
                 r
@@ -797,11 +797,11 @@ fn own_entry(who: u8) -> impl Strategy<Value = Option<NodeSpec>> {
 
 fn case_strategy(max_universe: u8, max_book: usize) -> impl Strategy<Value = Case> {
     (
-        0u8..=max_universe,
+        prop_oneof![1 => 0u8..3, 6 => 3u8..=max_universe],
         prop_oneof![4 => Just(0u8), 1 => Just(1u8)],
         any::<u64>(),
         // Overlap mode and raw masks.
-        (0u8..6, any::<u16>(), any::<u16>(), any::<u16>()),
+        (prop_oneof![4 => Just(0u8), 1 => Just(1u8), 1 => Just(2u8), 1 => Just(3u8), 1 => Just(4u8), 2 => Just(5u8)], any::<u16>(), any::<u16>(), any::<u16>()),
         (prop::bool::weighted(0.7), prop::bool::weighted(0.7)),
         (prop::collection::vec(node_spec(), 0..=max_book), own_entry(0)),
         (prop::collection::vec(node_spec(), 0..=max_book), own_entry(1)),
@@ -876,10 +876,10 @@ pub fn run(mut ctx: Ctx) -> ! {
         Part::new(
             "psi_model_store",
             "topic universes of 0..=12 topics (pseudo-random or low-entropy bytes), two subsets in modes independent/equal/disjoint/nested/forced overlap, per-side restricted-sharing flag, per-side address book of 0..=8 entries over 10 identities (incl. Alice and Bob themselves) with sparse topic sets, optional transports, stale and bootstrap flags, on an in-memory address book with the documented trait semantics, paused clock; non-trivial = intersection non-empty and a proper subset of both sides and a restricted sender knows a sharable third node that has only non-common topics",
-            4_000,
-            300_000,
+            40_000,
+            1_000_000,
         )
-        .min_nontrivial(0.05),
+        .min_nontrivial(0.1),
         || case_strategy(max_universe, max_book),
         check_model_store,
     );
@@ -887,10 +887,10 @@ pub fn run(mut ctx: Ctx) -> ! {
         Part::new(
             "psi_sqlite_store",
             "same generator, both address books in SqliteStore::temporary() (the store p2panda-net runs the protocol on); same non-trivial rule",
-            300,
+            600,
             8_000,
         )
-        .min_nontrivial(0.05),
+        .min_nontrivial(0.1),
         || case_strategy(max_universe, max_book),
         check_sqlite_store,
     );
@@ -898,8 +898,8 @@ pub fn run(mut ctx: Ctx) -> ! {
         Part::new(
             "replay",
             "same generator for the victim; a scripted peer that knows no topic either echoes Bob's hashed topics back to him within the session, or answers Alice with the hashed topics honest Bob sent in an earlier session under a fresh salt half; the victim must not credit it with any topic nor (restricted) send it third-party node infos; non-trivial = at least one hash was replayed",
-            1_500,
-            100_000,
+            10_000,
+            300_000,
         )
         .min_nontrivial(0.3),
         replay_strategy,
